@@ -61,6 +61,18 @@ func c07Recipe(recipe string) []byte {
 	case "item": // format code a, b payload bytes of 0x01 (3 length bytes)
 		body := append([]byte{byte(a)<<2 | 3, byte(b >> 16), byte(b >> 8), byte(b)}, bytes.Repeat([]byte{0x01}, b)...)
 		return wrapMsg(body)
+	case "greedy": // a nested list headers with b length bytes, each declaring as many children as the guard "2 bytes per child" lets through
+		total := a * (1 + b)
+		var body []byte
+		for i := 0; i < a; i++ {
+			remaining := total - len(body) - (1 + b)
+			n := remaining / 2
+			if max := 1<<(8*uint(b)) - 1; n > max {
+				n = max
+			}
+			body = append(body, ref.HeaderN(ref.L, n, b)...)
+		}
+		return wrapMsg(body)
 	case "emptylist": // list of a empty lists
 		body := append([]byte{0x03, byte(a >> 16), byte(a >> 8), byte(a)}, bytes.Repeat([]byte{0x01, 0x00}, a)...)
 		return wrapMsg(body)
@@ -120,6 +132,13 @@ func c07Jobs(c *ctx) (small []iso.Job, large []iso.Job) {
 		small = append(small, iso.Job{Input: c07Recipe(fmt.Sprintf("chain %d 0", depth)), Family: "unclosed-chain", Meta: fmt.Sprintf("chain %d 0", depth)})
 	}
 	large = append(large, iso.Job{Input: c07Recipe("chain 1000000 0"), Family: "unclosed-chain", Meta: "chain 1000000 0"})
+	// nested lists that each declare the largest child count the bytes present could still hold
+	for _, nl := range []int{1, 2, 3} {
+		for _, depth := range []int{8, 64, 512, 4096, c.pick(16384, 65536)} {
+			r := fmt.Sprintf("greedy %d %d", depth, nl)
+			small = append(small, iso.Job{Input: c07Recipe(r), Family: "greedy-nested-lists", Meta: r})
+		}
+	}
 	// (b) long legitimate items
 	sizes := []int{65536, 1 << 20}
 	if c.thorough {
@@ -193,7 +212,7 @@ func runC07(c *ctx) {
 
 	// distinct / non-trivial accounting (parent side, from the job list)
 	for _, j := range append(append([]iso.Job{}, small...), large...) {
-		nontrivial := len(j.Input) >= 4096 || j.Family == "declared-vs-present" || j.Family == "unclosed-chain"
+		nontrivial := len(j.Input) >= 4096 || j.Family == "declared-vs-present" || j.Family == "unclosed-chain" || j.Family == "greedy-nested-lists"
 		if !nontrivial {
 			if _, ok := ref.Decode(j.Input); !ok {
 				nontrivial = true
@@ -278,7 +297,7 @@ func runC07(c *ctx) {
 			c.Sample(map[string]interface{}{"family": j.Family, "len": len(j.Input), "input": hex.EncodeToString(clipB(j.Input))})
 		}
 	}
-	c.Required = []string{"family/declared-vs-present", "family/single-point-fault", "family/long-item", "family/closed-chain", "family/random", "accepted", "rejected"}
+	c.Required = []string{"family/declared-vs-present", "family/single-point-fault", "family/long-item", "family/closed-chain", "family/greedy-nested-lists", "family/random", "accepted", "rejected"}
 }
 
 func firstLines(s string, n int) string {
